@@ -50,11 +50,11 @@ func (g *gen) faultScript(noConn map[int]bool, down map[int]bool, timeouts, conn
 	}
 	// no cancellation here; faults instead
 	for i := range sc.outs {
-		if sc.outs[i].o != nil && sc.outs[i].o.kind == 0 {
+		if sc.outs[i].o != nil && sc.outs[i].o.kind <= 1 {
 			sc.outs[i].o = nil
 		}
 	}
-	if sc.dflt.o != nil && sc.dflt.o.kind == 0 {
+	if sc.dflt.o != nil && sc.dflt.o.kind <= 1 {
 		sc.dflt.o = nil
 	}
 	if len(sc.outs) == 0 {
